@@ -49,6 +49,19 @@ CLAIMED = {
         "independent list-of-versions oracle (this found and fixed three byte-level/visibility defects); snapshots are explicit values.",
    technique="Coq proof (refutation + theorem outside a syntactic known class, invariant over event lists) + differential correspondence",
    design="7 (C18)"),
+ "C04": dict(
+   text="Props/C04.v, mechanism level: for every history of begin/commit/abort/record_write the snapshot handed out by begin answers "
+        "'committed before me' with exactly the transactions committed at that instant and never with its own or a later id "
+        "(C04_snapshot_sound, invariant over operation lists; snapshots are values, hence repeatable); two successful committers "
+        "of a common tuple were never concurrent (C04_first_committer_wins, ghost commit timestamps). The coordinator model is run "
+        "against the real TransactionCoordinator/Snapshot on random histories and exhaustively on all begin/commit/abort histories "
+        "of up to 3-4 transactions with the full visibility matrix. SQL-level interleavings are compared with the reference "
+        "database by the sql streams (C03/C05 machinery).",
+   note="Trusted: Coq kernel; coordinator operations are atomic in the model (its RwLock-protected table is not modelled "
+        "concurrently); vacuum_transactions is excluded from the soundness theorem (its effect on later snapshots belongs to C13); the "
+        "SQL layer never records write sets, so first-committer-wins is a statement about the coordinator only.",
+   technique="Coq invariant proofs over operation lists + exhaustive small-history differential correspondence",
+   design="7 (C04)"),
 }
 NOT_YET = "not claimed yet: model and proofs under construction in this session (see DESIGN.md section 10, build order)"
 
